@@ -49,6 +49,10 @@ def run(ctx):
     c05.r1_selected_set(ctx)
     c20.r3_dump(ctx)
     ctx.alias = {}
+    # filtering and encoding commute: whatever the encoding, a note exports only sub-tokens that pass the category predicate
+    ctx.alias = {'R5': 'R3'}
+    c05.r5_subtoken_filter(ctx)
+    ctx.alias = {}
 
 
 def r1_field_reads(ctx):
